@@ -464,7 +464,7 @@ func (r *Runner) Run(s Scenario) uint64 {
 		if tr.Await(from, SyncTimeout, func(ev vtrace.Event) bool {
 			if ev.Tok == tok {
 				switch ev.Ev {
-				case "SendDone", "CtxSkip", "BrokenReply", "ClosedReply":
+				case "SendDone", "CtxSkip", "BrokenReply", "ClosedReply", "CtxReply":
 					settled++
 				}
 			}
